@@ -159,3 +159,28 @@ add("Sum", STD_DERIVES + " #[derive(derive_more::Sum, derive_more::Add)] pub str
     ['format!("{:?}", ::core::iter::Iterator::sum::<M::T>(::std::vec![M::T(1, 2), M::T(3, 4)].into_iter()))'])
 add("Product", STD_DERIVES + " #[derive(derive_more::Product, derive_more::Mul)] #[mul(forward)] pub struct T(pub i32, pub i32);",
     ['format!("{:?}", ::core::iter::Iterator::product::<M::T>(::std::vec![M::T(1, 2), M::T(3, 4)].into_iter()))'])
+# ---------------------------------------------------------------- variants named like the traits' associated items
+# (`Self::Output` / `Self::Error` / `Self::Err` inside an impl for an enum is ambiguous with a variant of that name:
+# the expansions must spell the associated types out)
+ASSOC = "Output(i32), Error(i32), Err(i32), Target(i32), Item(i32)"
+for tr, sym in [("Add", "+"), ("Sub", "-"), ("BitAnd", "&"), ("BitOr", "|"), ("BitXor", "^")]:
+    add(f"{tr}:assoc_named_variants", STD_DERIVES + f" #[derive(derive_more::{tr})] pub enum T {{ {ASSOC} }}",
+        [f'format!("{{:?}}|{{}}", (M::T::Output(7) {sym} M::T::Output(3)).ok(), (M::T::Output(7) {sym} M::T::Error(3)).is_err())'])
+for tr, sym in [("Mul", "*"), ("Shl", "<<")]:
+    add(f"{tr}:assoc_named_variants", STD_DERIVES + f" #[derive(derive_more::{tr})] #[{tr.lower()}(forward)] pub enum T {{ {ASSOC} }}",
+        [f'format!("{{:?}}", (M::T::Output(7) {sym} M::T::Output(3)).ok())'])
+add("Not:assoc_named_variants", STD_DERIVES + f" #[derive(derive_more::Not, derive_more::Neg)] pub enum T {{ {ASSOC} }}",
+    ['format!("{:?}|{:?}", !M::T::Output(1), -M::T::Error(2))'])
+add("TryFrom:assoc_named_variants", STD_DERIVES + " #[derive(derive_more::TryFrom)] #[try_from(repr)] #[repr(u8)] pub enum T { Output, Error, Err, Ok }",
+    ['format!("{:?}|{}", <M::T as ::core::convert::TryFrom<u8>>::try_from(1).ok(), <M::T as ::core::convert::TryFrom<u8>>::try_from(9).is_err())'])
+add("FromStr:assoc_named_variants", STD_DERIVES + " #[derive(derive_more::FromStr)] pub enum T { Err, Ok, Output, Error }",
+    ['format!("{:?}|{}", <M::T as ::core::str::FromStr>::from_str("err").ok(), <M::T as ::core::str::FromStr>::from_str("x").is_err())'])
+add("TryInto:assoc_named_variants", STD_DERIVES + " #[derive(derive_more::TryInto, derive_more::Unwrap, derive_more::TryUnwrap, derive_more::IsVariant, derive_more::From)] "
+    "#[try_into(owned, ref, ref_mut)] #[try_unwrap(owned, ref, ref_mut)] pub enum T { Error(i32), Output(u8), Err(bool), Ok }",
+    ['format!("{:?}|{}|{}|{:?}", <i32 as ::core::convert::TryFrom<M::T>>::try_from(M::T::Error(4)).ok(), M::T::Output(1).is_output(), '
+     'M::T::Err(true).try_unwrap_err().is_ok(), <M::T as ::core::convert::From<u8>>::from(3))'])
+add("Display:assoc_named_variants", '#[derive(derive_more::Display, derive_more::Debug)] pub enum T { Error(i32), #[display("o")] Output, #[display("e{x}")] Err { x: u8 } }',
+    ['format!("{}|{}|{:?}", M::T::Error(1), M::T::Output, M::T::Err { x: 2 })'])
+add("Error:assoc_named_variants", ERRBASE + '#[derive(derive_more::Debug, derive_more::Display, derive_more::Error)] #[display("t")] '
+    'pub enum T { Error { source: Inner }, Output, Err(Inner) }',
+    [SRC.format(v="M::T::Error { source: M::Inner }"), SRC.format(v="M::T::Output"), SRC.format(v="M::T::Err(M::Inner)")])
